@@ -12,6 +12,7 @@ Input: one JSON request on stdin.  Output: one JSON object on stdout.
 """
 import importlib
 import json
+import os
 import sys
 import traceback
 
@@ -20,6 +21,22 @@ def load(req):
     mod = importlib.import_module(req["module"])
     obj = getattr(mod, req["name"])
     return obj() if isinstance(obj, type) else obj
+
+
+VERIF = os.path.dirname(os.path.dirname(os.path.abspath(__file__)))
+
+
+def classify(e):
+    """an exception escaping native_call: raised by the REAL code (the contract allows no such
+    exception -> 'fails') or by the replay harness itself under /verif ('error')?"""
+    tb = e.__traceback__
+    last = None
+    while tb is not None:
+        last = tb.tb_frame.f_code.co_filename
+        tb = tb.tb_next
+    if last and os.path.abspath(last).startswith(VERIF):
+        return "error", f"replay harness error: {type(e).__name__}: {e} | {traceback.format_exc(limit=4)}"
+    return "fails", f"unexpected {type(e).__name__}: {e} (raised in {last}) | {traceback.format_exc(limit=3)}"
 
 
 def main():
@@ -36,9 +53,10 @@ def main():
             else:
                 try:
                     holds, desc = fn(req["model"])
-                except Exception as e:  # the real function raised something the contract does not allow
-                    holds, desc = False, f"unexpected {type(e).__name__}: {e} | {traceback.format_exc(limit=3)}"
-                out.update(status="holds" if holds else "fails", desc=str(desc), model=req["model"])
+                    st = "holds" if holds else "fails"
+                except Exception as e:
+                    st, desc = classify(e)
+                out.update(status=st, desc=str(desc), model=req["model"])
         elif req["mode"] == "search":
             gen = getattr(target, "native_search", None)
             if fn is None or gen is None:
@@ -51,7 +69,11 @@ def main():
                     try:
                         holds, desc = fn(m)
                     except Exception as e:
-                        holds, desc = False, f"unexpected {type(e).__name__}: {e} | {traceback.format_exc(limit=3)}"
+                        st, desc = classify(e)
+                        if st == "error":
+                            out.update(status="error", desc=str(desc), model=m)
+                            break
+                        holds = False
                     if not holds:
                         out.update(status="fails", desc=str(desc), model=m)
                         break
